@@ -660,7 +660,7 @@ class Block(_CIFBase):
     @name.setter
     def name(self, name: str) -> None:
         encoded = _encode_non_ascii(name)
-        if ' ' in encoded or '\t' in encoded or '\n' in encoded:
+        if any(c in encoded for c in ' \t\n\r'):
             raise ValueError(
                 "Block name must not contain spaces or line breaks, "
                 f"got: '{encoded}'"
